@@ -8,11 +8,12 @@ What mirrors what (tree at /repo HEAD):
 * `resend`                              — `ofp_packet_out.data` setter given a packet-in, libopenflow_01.py:3585-3607
 * `flowModPack`                         — the `data` magic of `ofp_flow_mod.pack`, libopenflow_01.py:2314-2354
     (reuse the buffer id, or flow_mod + barrier + packet_out(data, output:TABLE))
-* `rxPacket`                            — `SoftwareSwitchBase.rx_packet`, pox/datapaths/switch.py:480-526 (port check, lookup, touch, miss → buffer + packet-in)
-* `rxFlowMod` / `rxPacketOut`           — `_rx_flow_mod` :292-311 + `_flow_mod_add` :750-800, `_rx_packet_out` :313-327
-* `doAct`                               — `_output_packet` :632-683 (physical port / FLOOD / TABLE) with `real_send`'s ingress and port checks
-* `insertFlow`, `hit`, `sweep`, `Flow.effPrio`, `Flow.expired` — pox/openflow/flow_table.py:79-83 (effective_priority), :226-247 (add_entry),
-    :316-330 (entry_for_packet), :109-134 (timeouts, strict `>`), :294-304 (remove_expired_entries)
+* `rxPacket`                            — `SoftwareSwitchBase.rx_packet`, pox/datapaths/switch.py:470-529 (port check, lookup, touch, miss → buffer + packet-in)
+* `rxFlowMod` / `rxPacketOut`           — `_rx_flow_mod` :292-310 + `_flow_mod_add` :747-800, `_rx_packet_out` :312-327
+* `doAct`, `doActs`, `fromBuffer`       — `_output_packet` :626-685 (physical port / FLOOD / TABLE) with `real_send`'s ingress and port checks,
+    `_process_actions_for_packet` :725-745, `_process_actions_for_packet_from_buffer` :706-723
+* `insertFlow`, `lookup`, `touch`, `sweepTable`, `Flow.effPrio`, `Flow.expired` — pox/openflow/flow_table.py:79-83 (effective_priority),
+    :224-247 (add_entry), :313-327 (entry_for_packet), :102-134 (touch_packet, timeouts with strict `>`), :295-304 (remove_expired_entries)
 * buffer pool                           — `Model/BufPool.lean` (`alloc` = `_buffer_packet`, `use` = `_process_actions_for_packet_from_buffer`)
 
 Abstraction of frames (DESIGN §5 C11): l2_learning installs only matches built by `ofp_match.from_packet`, so a frame is
